@@ -1,12 +1,12 @@
 package c09
 
 import (
-	"verifharness/evid"
 	"encoding/binary"
 	"fmt"
 	"os"
 	"strings"
 	"sync"
+	"verifharness/evid"
 
 	"github.com/brewlin/net-protocol/pkg/buffer"
 	tcpip "github.com/brewlin/net-protocol/protocol"
